@@ -170,10 +170,14 @@ func (ts *TimeSeries) String() string {
 // and returns the extended buffer.
 //
 // AppendTo method implements the AppenderTo interface.
+//
+// A nil ts (an absent series) is encoded as an empty series whose
+// fromTime, untilTime and step are all zero.
 func (ts *TimeSeries) AppendTo(dst []byte) []byte {
-	dst = ts.fromTime.AppendTo(dst)
-	dst = ts.untilTime.AppendTo(dst)
-	dst = ts.step.AppendTo(dst)
+	fromTime, untilTime, step := ts.FromTime(), ts.UntilTime(), ts.Step()
+	dst = fromTime.AppendTo(dst)
+	dst = untilTime.AppendTo(dst)
+	dst = step.AppendTo(dst)
 	values := ts.Values()
 	for i := range values {
 		dst = values[i].AppendTo(dst)
@@ -205,6 +209,11 @@ func (ts *TimeSeries) TakeFrom(src []byte) ([]byte, error) {
 	}
 
 	if ts.step == 0 {
+		if ts.fromTime == 0 && ts.untilTime == 0 {
+			// an absent series, see AppendTo.
+			ts.values = nil
+			return src, nil
+		}
 		return nil, errors.New("step must not be zero")
 	}
 	if ts.untilTime < ts.fromTime {
